@@ -51,6 +51,22 @@ def call_cannot_unwind(t):
     return t.get("resolved") in NOPANIC_RESOLVED
 
 
+# Destructors that contain no panic path (read from the library source): BufWriter's Drop flushes
+# and discards the result, OwnedFd's closes, Vec/RawVec of a plain type free memory. A drop whose
+# destructor list (collected by the driver through all fields) is within this set cannot unwind.
+NOPANIC_DTORS = (
+    "std::io::BufWriter<std::fs::File>",
+    "std::os::fd::OwnedFd",
+    "std::vec::Vec<u8>",
+    "alloc::raw_vec::RawVec<u8>",
+)
+
+
+def drop_cannot_unwind(t):
+    ds = t.get("dtors")
+    return ds is not None and all(d in NOPANIC_DTORS for d in ds)
+
+
 def real_unwind(body):
     """follow-filter: skip the unwind edge of no-op drops (values moved out on every path) and of
     calls to functions that contain no panic path"""
@@ -58,7 +74,7 @@ def real_unwind(body):
     def f(e):
         if e.kind == "unwind":
             t = body.term(e.src)
-            if t["k"] == "drop" and body.drop_is_noop(e.src):
+            if t["k"] == "drop" and (body.drop_is_noop(e.src) or drop_cannot_unwind(t)):
                 return False
             if t["k"] == "call" and call_cannot_unwind(t):
                 return False
